@@ -33,6 +33,15 @@ func scenarioC13(r *Run) {
 	r.Conf.EnableHBTimer = false
 	r.Conf.ReadTimeout = 100000
 	r.DrawStrategy()
+	// rarely: a mass wake-up at the end of the run - more reports at one instant, for
+	// distinct F-SEIDs, than the agent's report queue holds (1024), the node's loop
+	// possibly far behind the listener (priority scheduling)
+	flood := !up4 && !reuse && r.Ch.Choose(24, "flood") == 1
+	if flood {
+		r.Sim.SetPCT(r.Ch.Choose(4, "pct-d"), 200000)
+		r.Sim.StepCost = 0
+		r.Sim.MaxSteps = 30_000_000
+	}
 	if reuse {
 		vsim.RandCfg = vsim.RandConfig{Mode: vsim.RandRepeat, Cycle: 1 + r.Ch.Choose(2, "cycle")}
 		r.Fault("adversarial-prng-repeats")
@@ -229,7 +238,24 @@ func scenarioC13(r *Run) {
 		}
 		// occasionally delete a session / create a new one (SEID reuse when the PRNG repeats)
 		if r.Ch.Choose(10, "churn") == 1 && target != nil && target.live {
-			if res := p.Delete(target.s); res.Accepted {
+			// (P4Runtime: one Write RPC of the deletion may fail; the deletion is then
+			// refused, the session lives on and its reports are forwarded as before)
+			armed := false
+			if up4 && r.Ch.Choose(2, "delete-fails") == 1 {
+				r.W.P4.FailKind = "transport"
+				r.W.P4.Faults.FailNth = r.W.P4.Writes + 1 + r.Ch.Choose(2, "which-write")
+				armed = true
+			}
+			res := p.Delete(target.s)
+			if armed {
+				r.W.P4.Faults.FailNth = 0
+				if !res.Accepted && res.Rx != nil {
+					r.Fault("p4-write-fails-in-deletion")
+					r.Op("deletion of session up=%d refused (cause %d) after a failed Write RPC: the session stays", target.s.UPSEID, res.Cause)
+					r.Skel("deletion-refused")
+				}
+			}
+			if res.Accepted {
 				target.live = false
 				r.Op("session up=%d deleted", target.s.UPSEID)
 				if si := mk(); si != nil && si.s.UPSEID == target.s.UPSEID {
@@ -247,6 +273,57 @@ func scenarioC13(r *Run) {
 					sessions = liveOnes
 				}
 			}
+		}
+	}
+	if flood && r.AgentAlive() {
+		r.Sim.RunFor(ddnInterval + time.Second) // every session's interval has expired
+		n := 1030 + r.Ch.Choose(700, "flood-n")
+		var list []uint64
+		for i := 0; i < n; i++ {
+			list = append(list, 0xF100D0000+uint64(i))
+		}
+		// the live sessions' reports come near the end of the burst
+		for _, x := range sessions {
+			if !x.live {
+				continue
+			}
+			pos := len(list) - r.Ch.Choose(16, "flood-pos")
+			list = append(list[:pos], append([]uint64{x.s.UPSEID}, list[pos:]...)...)
+		}
+		now := r.Sim.NowNS()
+		done := map[uint64]bool{}
+		for _, f := range list {
+			for _, x := range sessions {
+				if x.live && x.s.UPSEID == f && !done[f] {
+					done[f] = true
+					notifierLast[f] = now
+					if x.notify {
+						expected = append(expected, fwd{now, x, x.s.CPSEID, false})
+						seenFirst[x] = true
+					}
+				}
+			}
+		}
+		i := 0
+		var pump func()
+		pump = func() {
+			// (a unix datagram sender blocks while the receiver's queue is full)
+			for i < len(list) && r.W.Net.UnixQueueLen("/tmp/notifycp") < 400 {
+				inject(list[i])
+				i++
+			}
+			if i < len(list) {
+				r.Sim.AfterSteps(16, pump)
+			}
+		}
+		pump()
+		r.Fault("report-burst-beyond-the-queue")
+		r.Skel("flood")
+		r.Op("%d reports for distinct F-SEIDs at one instant (%d of them for live sessions)", len(list), len(done))
+		r.Sim.RunFor(200 * time.Millisecond)
+		if i < len(list) {
+			r.Inconclusive++ // the listener never drained its socket: nothing to judge
+			return
 		}
 	}
 	r.Sim.RunFor(time.Second)
